@@ -328,15 +328,27 @@ pub fn observe(input: &str) -> Value {
     let (tx, rx) = std::sync::mpsc::channel();
     let text = input.to_string();
     let spawned = std::thread::Builder::new().stack_size(8 << 20).spawn(move || {
-        let _ = tx.send(observe_inner(&text));
+        let tags = frontp::class_of(&text);
+        let v = if tags.is_empty() { observe_inner(&text) } else { json!({"isolate": tags}) };
+        let _ = tx.send(v);
     });
     if spawned.is_err() {
         return json!({"timeout": 0});
     }
     match rx.recv_timeout(std::time::Duration::from_secs(frontp::TIMEOUT_S)) {
-        Ok(v) => v,
+        Ok(v) => match v.get("isolate") {
+            Some(tags) => {
+                let tags: Vec<String> = tags.as_array().map(|a| a.iter().filter_map(|t| t.as_str().map(String::from)).collect()).unwrap_or_default();
+                frontp::observe_isolated("C13-child", input, &tags)
+            }
+            None => v,
+        },
         Err(_) => json!({"timeout": frontp::TIMEOUT_S}),
     }
+}
+
+pub fn observe_unisolated(input: &str) -> Value {
+    observe_inner(input)
 }
 
 fn observe_inner(input: &str) -> Value {
@@ -470,6 +482,14 @@ pub fn run(opts: &Opts, out: &mut Emitter) {
             let (text, kind) = frontp::mutate(&mut r, &base, &donor);
             out.case("token-mutation", || json!({"input": text, "mutations": [kind], "obs": observe(&text)}));
             continue;
+        }
+        if k % 10 == 7 {
+            // definition graphs (types, aliases, locals referring to each other and to themselves)
+            let text = frontp::definition_graph_source(&mut r, false);
+            if frontp::class_of(&text).is_empty() {
+                out.case("definition-graph", || json!({"input": text, "mutations": ["definition-graph"], "obs": observe(&text)}));
+                continue;
+            }
         }
         let (src, kinds, p) = mutated_source(&mut r);
         out.case("semantic-mutation", || json!({"program": program_json(&p), "mutations": kinds, "input": src, "obs": observe(&src)}));
